@@ -33,6 +33,24 @@ PLAN = {
                   R("exhaustive", "^TestExhaustive$", shards=16, env={"C01_EXH_SEGS": 2, "C01_EXH_SUBSET": 3, "C01_EXH_PATHLEN": 7}, timeout=3000),
                   R("random", "^(TestRandom|TestFanOut)$", checks=150000, shards=16, timeout=3000)],
     ),
+    "C02": dict(
+        pkg="c02", level="exploration",
+        technique="model-based stateful testing (rapid state machine) against a sequential map model with the documented conflict rule",
+        level_text="Random histories of Handle/HandleRoute/Update/UpdateRoute/Delete/Truncate, direct or grouped in committed, aborted, failed and "
+                   "panicking transactions, over pattern pools that grow by byte-level prefix extension (so nodes split and merge), with conflicts, "
+                   "invalid strings, hostnames and four methods. Every return value, error class and conflict list is compared with the model and "
+                   "after every step Len, Has, Route, Iter.All, Methods, Prefix (every prefix of the latest pattern) and Routes are compared on the router and on the open transaction.",
+        level_note="Trusts the map model and the reference grammar; histories are sampled (bounded length), not enumerated.",
+        rule="cases: operation histories; counted evaluations are operations; non-trivial history = contains an insert sharing a >=2-byte prefix with a "
+             "recently removed key, or a conflict, or an aborted/failed/panicked transaction; distinct by the operation list",
+        assumptions=["map model + conflict rule as stated in the property", "'_' in host labels not judged"],
+        quick=[REPLAY,
+               R("model", "^(TestModel|TestNote)$", checks=2500, steps=40, timeout=900),
+               R("fanout", "^TestFanOut$", checks=150, timeout=900)],
+        thorough=[REPLAY,
+                  R("model", "^(TestModel|TestNote)$", checks=15000, steps=100, shards=16, timeout=3000),
+                  R("fanout", "^TestFanOut$", checks=600, shards=8, timeout=3000)],
+    ),
     "C08": dict(
         pkg="c08", level="exploration",
         technique="differential testing of trailing-slash detection and dispatch against the reference matcher applied to the slash-adjusted path, plus a metamorphic relation (irrelevant routes) and a resolve-the-Location round trip",
